@@ -96,14 +96,15 @@ type subject struct {
 	suffix string // appended to signatures (separate decoder code)
 }
 
-// sign appends the subject's suffix to signatures of classes that depend on
-// the subject's own decoding code (containers, buffers, type checks, panics);
-// short reads and partial strings happen inside codec.Reader whoever calls it.
+// sign appends the subject's suffix to the signature classes that arise in
+// the subject's own decoding code (partial containers, zero-filled buffers,
+// panics); short reads, partial strings and type checks sit in codec.Reader
+// whoever calls it.
 func (s *subject) sign(sig string) string {
-	if s.suffix == "" || strings.HasPrefix(sig, "short-read:") || strings.HasPrefix(sig, "partial-string:") || strings.HasPrefix(sig, "cut-head:") {
-		return sig
+	if s.suffix != "" && (strings.HasPrefix(sig, "partial-container:") || strings.HasPrefix(sig, "zero-filled:") || strings.HasPrefix(sig, "panic:")) {
+		return sig + s.suffix
 	}
-	return sig + s.suffix
+	return sig
 }
 
 // ---------------------------------------------------------------- subjects
@@ -1036,7 +1037,7 @@ func main() {
 		"bounds": map[string]any{
 			"deviation_bound_k": k,
 			"struct_baselines":  "all-default and all-non-default baselines of each of the 24 res structs, every replacement of <=k members by a C06 lattice value (one value per integer width and sign, string/byte-vector lengths across the STRING1/STRING4 and 1/2-byte length boundary, containers of 0/1/2 elements), each in canonical form, with explicit defaults, and with byte vectors as LIST",
-			"block":             "the same structs framed by StructBegin/StructEnd at tag 0 (and tag 200), deviation bound k-1",
+			"block":             "the same structs framed by StructBegin/StructEnd at tag 0 (thorough: also tag 200), deviation bound 1 over a reduced lattice",
 			"prim":              "11 primitive types x require/optional x tags {0,14,15,255} x C06 lattice",
 			"slice":             "vector<byte> and vector<unsigned byte> x tags {0,15} x lengths {0,1,3,255,256} as SimpleList and as LIST",
 			"tup":               "hand-listed attribute sets (0-3 entries, key/value lengths 0,1,2,3,255,256; more length pairs in thorough)",
@@ -1083,7 +1084,7 @@ func buildSubjects(thorough bool) ([]*subject, error) {
 			return nil, err
 		}
 		s := structSubject(st, mk)
-		s.bases = structBaselines(st, k, thorough, nil)
+		s.bases = structBaselines(st, k, true, nil)
 		subjects = append(subjects, s)
 	}
 	for _, st := range structs {
@@ -1093,7 +1094,7 @@ func buildSubjects(thorough bool) ([]*subject, error) {
 			}
 			tag := tag
 			s := blockSubject(st, goTypes[st.QName()], tag)
-			s.bases = structBaselines(st, k-1, false, func(body []byte) []byte {
+			s.bases = structBaselines(st, 1, false, func(body []byte) []byte {
 				b := ref.AppendHead(nil, tag, ref.WStructBegin)
 				b = append(b, body...)
 				return ref.AppendHead(b, 0, ref.WStructEnd)
